@@ -516,6 +516,20 @@ def split_step(got):
     return d
 
 
+def mask_lossy(impl_out, model_out):
+    """leg K for kind ba: where the library printed ok:some:LOSSY (lossy Shift-JIS decode of non-text bytes) the model's
+    byte string at that step is not comparable; replace it by the same token"""
+    if "ok:some:LOSSY" not in impl_out:
+        return model_out
+    a, b = impl_out.split(" ; "), model_out.split(" ; ")
+    if len(a) != len(b):
+        return model_out
+    for i, (x, y) in enumerate(zip(a, b)):
+        if x.startswith("ok:some:LOSSY") and y.startswith("ok:some:B"):
+            b[i] = "ok:some:LOSSY" + y[len(y.split(" ", 1)[0]):]
+    return " ; ".join(b)
+
+
 def judge(line, impl_out, check_image=True):
     """compare implementation output with the reference; returns None or failure text"""
     if impl_out in ("PANIC", "ABORT", "TIMEOUT", "MISSING-OUTPUT"):
@@ -528,6 +542,9 @@ def judge(line, impl_out, check_image=True):
         if want is None:
             continue
         d = split_step(got)
+        if d["base"].startswith("ok:some:LOSSY") and want["res"].startswith("ok:some:"):
+            # the library decoded bytes that are not Shift-JIS text (read_c_string into raw data): only the state is compared
+            d["base"] = want["res"] + d["base"][len("ok:some:LOSSY"):]
         if d["base"] != want["res"] + want["st"]:
             return "step %d: reference says %r, implementation %r" % (i, (want["res"] + want["st"])[:300], d["base"][:300])
         if want["rc"] is not None and d["ser"] is not None:
